@@ -369,7 +369,7 @@ impl<'a> Component<'a> {
         // This can be at most five octets with at most four bits in the
         // topmost octet.
         if self.slice.len() > 5
-            || (self.slice.len() == 4 && self.slice[0] & 0x70 != 0)
+            || (self.slice.len() == 5 && self.slice[0] & 0x70 != 0)
         {
             return None
         }
